@@ -278,9 +278,12 @@ def c18_run(ctx):
                         problems.append((f"extra-fields:{m}", f"{m} on {lname} ({fl}:{sig}): extra fields {got_extra}, operand had {extras}; all fields {ak.fields(res)}"))
                     elif extras and lname == "flat+extra" and ak.to_list(res["charge"]) != charge.tolist():
                         problems.append((f"extra-values:{m}", f"{m} changed the values of the carried field"))
-                    csig = sig_from_names([f for f in ak.fields(res) if f in COORD_FIELDS])
-                    if "?" in csig or len([f for f in ak.fields(res) if f in COORD_FIELDS]) != sum(2 if i == 0 else 1 for i in range(len(csig))):
-                        problems.append((f"coord-fields:{m}", f"{m} on {lname} ({fl}:{sig}) returns coordinate fields {ak.fields(res)}"))
+                    cf = [GEN.get(f, f) for f in ak.fields(res) if f in COORD_FIELDS]
+                    n_lon = sum(f in ("z", "theta", "eta") for f in cf)
+                    n_tmp = sum(f in ("t", "tau") for f in cf)
+                    n_az = (("x" in cf) + ("y" in cf), ("rho" in cf) + ("phi" in cf))
+                    if n_az not in ((2, 0), (0, 2)) or n_lon > 1 or n_tmp > 1 or (n_tmp == 1 and n_lon == 0) or len(cf) != 2 + n_lon + n_tmp:
+                        problems.append((f"coord-fields:{m}", f"{m} on {lname} ({fl}:{sig}) returns coordinate fields {ak.fields(res)}: not one coordinate system"))
             # binary with the same layout of another array: coordinates only
             if lname in ("flat", "flat+extra", "jagged", "jagged+extra", "option-record"):
                 other = {"flat": flat2, "flat+extra": ak.with_field(flat2, charge, "q"), "jagged": ak.unflatten(flat2, [3, 0, 4, 1]),
